@@ -745,6 +745,8 @@ func (g *gen) evalCall(env *specEnv, e *SExpr) (Val, error) {
 		return Val{T: ite(args[0].T, a.T, b.T), Sort: a.Sort, Typ: a.Typ}, nil
 	case "tag":
 		return intVal(app("i_tag", args[0].T)), nil
+	case "payload":
+		return Val{T: app("i_val", args[0].T), Sort: "Int"}, nil
 	case "isNilIface":
 		return boolVal(eq(app("i_tag", args[0].T), "0")), nil
 	case "deref":
